@@ -205,9 +205,8 @@ theorem C05_cell_data {α} (cs : List (Nat × List Nat)) (vals : List α) (hl : 
   because the code takes the FIRST occurrence in the whole file (negation witness in Witness/C05.lean,
   replayed on the implementation by the harness on every run).  Proved: the statement under the
   hypothesis that no earlier occurrence exists; the class predicate of the finding is its negation.
-  (The start position and the encoding detection — `content.find("_")`, `rfind("<AppendedData")` in the
-  last 100 bytes before the data plus the data itself — are modelled and compared with the code on every
-  generated raw file, but not covered by a theorem.)
+  Phase 2: the start position, the encoding detection and the file-level statement are now proved
+  (`C05_fallback_appendix` below); the hypothesis `AppendixOk` there is what remains of the finding.
 -/
 theorem C05_raw_appendix_end_partial (head appendix post : List Nat)
     (hno : ∀ j, j < (head ++ appendix).length →
@@ -219,5 +218,74 @@ theorem C05_raw_appendix_end_partial (head appendix post : List Nat)
     (by simp only [List.length_append]; omega) hno
     (by rw [List.append_assoc (head ++ appendix), List.drop_left' rfl]; exact startsWith_append _ _)
   simpa using this
+
+/-- **C05 (raw-appended fallback parser, file level).**  A file
+    `pre ++ "<AppendedData" ++ a1 ++ "encoding" ++ a2 ++ '"' ++ enc ++ '"' ++ a3 ++ ">" ++ ws ++ "_" ++ appendix
+       ++ "</AppendedData>" ++ post`
+    whose surroundings are well-formed as in a real header (`RawFile.HeadOk`, decidable: no earlier
+    occurrence of the two tags, no `<` `>` in the attribute text, `encoding` is the first keyword of that
+    name, no `"` before the opening quote or inside the name, only blanks between `>` and `_`, no
+    opening tag behind the closing tag, opening tag within the 100 bytes before the data) and whose
+    APPENDIX IS ARBITRARY except that it contains neither `<AppendedData` nor `</AppendedData>`
+    (`RawFile.AppendixOk`; its negation is the class of finding C05-RAWTAG, for which the statement
+    is false — negation witnesses `wBad`, `wBad2`):
+    `_find_appendix_positions` + `_determine_encoding` + the slicing of `VTKXMLReader.__init__`
+    return exactly the appendix bytes and the declared encoding name.
+    Covers the start position (`find("_")` behind the enclosed `<…>` range), the end position and
+    the encoding detection (`rfind` in `content[app_begin - 100:]`). -/
+theorem C05_fallback_appendix (f : RawFile) (hh : f.HeadOk) (ha : f.AppendixOk) :
+    fallbackAppendix f.content = some (f.appendix, f.enc) :=
+  fallbackAppendix_rawFile f hh ha
+
+/-- the header the VTK writers (and the harness) produce: `<AppendedData encoding="NAME">\n_` -/
+def stdRawFile (pre enc appendix : List Nat) : RawFile :=
+  ⟨pre, [32], [61], enc, [], [10], appendix, strBytes "\n</VTKFile>\n"⟩
+
+theorem stdRawFile_headOk (pre enc appendix : List Nat)
+    (hO : occ openTag pre = false) (hC : occ closeTag pre = false) (hlen : 100 ≤ pre.length)
+    (he : 34 ∉ enc ∧ 60 ∉ enc ∧ 62 ∉ enc ∧ enc.length ≤ 64) : (stdRawFile pre enc appendix).HeadOk := by
+  obtain ⟨h34, h60, h62, hl⟩ := he
+  refine ⟨hO, hC, ?_, ?_, (show occ encodingKw (openTag ++ [32]) = false by decide +kernel),
+    (show 34 ∉ [61] by decide), h34, (show 60 ∉ [10] by decide), (show 95 ∉ [10] by decide),
+    (show occ openTag (strBytes "\n</VTKFile>\n") = false by decide +kernel), ?_, ?_⟩
+  · simp only [stdRawFile, RawFile.attrs, encodingKw_eq]; simp; exact h60
+  · simp only [stdRawFile, RawFile.attrs, encodingKw_eq]; simp; exact h62
+  · simp only [stdRawFile, RawFile.mid, RawFile.attrs, encodingKw_eq, openTag_eq]; simp; omega
+  · show 100 ≤ (pre ++ (stdRawFile pre enc appendix).mid).length
+    simp only [List.length_append]; omega
+
+/-- **C05 (fallback parser, concrete header).**  `encoding="raw"`: for every document prefix `pre`
+    (≥ 100 bytes, not containing the two tags) and every appendix not containing them, the bytes
+    between `_` and `</AppendedData>` are returned and `raw` is detected. -/
+theorem C05_fallback_appendix_raw (pre appendix : List Nat)
+    (hO : occ openTag pre = false) (hC : occ closeTag pre = false) (hlen : 100 ≤ pre.length)
+    (haO : occ openTag appendix = false) (haC : occ closeTag appendix = false) :
+    fallbackAppendix (pre ++ strBytes "<AppendedData encoding=\"raw\">\n_" ++ appendix
+      ++ strBytes "</AppendedData>\n</VTKFile>\n") = some (appendix, strBytes "raw") := by
+  have h := C05_fallback_appendix (stdRawFile pre (strBytes "raw") appendix)
+    (stdRawFile_headOk pre _ appendix hO hC hlen (by decide +kernel)) ⟨haO, haC⟩
+  have e1 : strBytes "<AppendedData encoding=\"raw\">\n_"
+      = openTag ++ ([32] ++ encodingKw ++ [61] ++ [34] ++ strBytes "raw" ++ [34] ++ []) ++ [62] ++ [10] ++ [95] := by
+    decide +kernel
+  have e2 : strBytes "</AppendedData>\n</VTKFile>\n" = closeTag ++ strBytes "\n</VTKFile>\n" := by decide +kernel
+  rw [e1, e2]
+  simpa [stdRawFile, RawFile.content, RawFile.mid, RawFile.attrs, List.append_assoc] using h
+
+/-- … and `base64` when that is what the header declares (a base64 appendix never contains `<`) -/
+theorem C05_fallback_appendix_base64 (pre appendix : List Nat)
+    (hO : occ openTag pre = false) (hC : occ closeTag pre = false) (hlen : 100 ≤ pre.length)
+    (ha : 60 ∉ appendix) :
+    fallbackAppendix (pre ++ strBytes "<AppendedData encoding=\"base64\">\n_" ++ appendix
+      ++ strBytes "</AppendedData>\n</VTKFile>\n") = some (appendix, strBytes "base64") := by
+  have h := C05_fallback_appendix (stdRawFile pre (strBytes "base64") appendix)
+    (stdRawFile_headOk pre _ appendix hO hC hlen (by decide +kernel))
+    ⟨by rw [openTag_cons]; exact occ_false_of_not_mem 60 _ _ ha,
+     by rw [closeTag_cons]; exact occ_false_of_not_mem 60 _ _ ha⟩
+  have e1 : strBytes "<AppendedData encoding=\"base64\">\n_"
+      = openTag ++ ([32] ++ encodingKw ++ [61] ++ [34] ++ strBytes "base64" ++ [34] ++ []) ++ [62] ++ [10] ++ [95] := by
+    decide +kernel
+  have e2 : strBytes "</AppendedData>\n</VTKFile>\n" = closeTag ++ strBytes "\n</VTKFile>\n" := by decide +kernel
+  rw [e1, e2]
+  simpa [stdRawFile, RawFile.content, RawFile.mid, RawFile.attrs, List.append_assoc] using h
 
 end Fc
